@@ -1,9 +1,8 @@
 """MANIFEST.setup_cmd: regenerate Gen from /repo, build the Lean library and the driver from clean."""
 import subprocess, sys
 from harness import common, translate
-try:
-    translate.regenerate()
-except translate.TranslateError as e:
-    print("setup: translator:", e)       # the per-property checks will report it
+_, errs = translate.regenerate()
+for k, e in errs.items():
+    print("setup: translator:", k, e)    # the per-property checks will report it
 r = subprocess.run(["lake", "build"], cwd=common.LEAN)
 sys.exit(r.returncode)
